@@ -232,4 +232,70 @@ def respond (arrived : List Ev) : List Ev := dedupIds arrived []
 /-- Executable read (shard-order arrival). -/
 def System.read (s : System) (q : Option Ctx) : List Ev := respond (s.arrivals q)
 
+/-! ## Ordered reads (`ORDER BY k [DESC] LIMIT n OFFSET m`)
+
+The order field of the `topk` stream is the payload key itself. Sorting, offset and limit are
+C10's subject; here they are only composed with the fan-out, to say what an ordered read must
+return when no shard is left out. -/
+
+def insertByKey (asc : Bool) (e : Ev) : List Ev → List Ev
+  | [] => [e]
+  | x :: xs =>
+    if (if asc then e.key ≤ x.key else x.key ≤ e.key) then e :: x :: xs
+    else x :: insertByKey asc e xs
+
+def sortByKey (asc : Bool) (l : List Ev) : List Ev := l.foldr (insertByKey asc) []
+
+/-- The page an ordered read returns: all matching rows of all shards, sorted, sliced. -/
+def System.readTop (s : System) (q : Option Ctx) (asc : Bool) (lim off : Nat) : List Ev :=
+  ((sortByKey asc (s.read q)).drop off).take lim
+
+/-! ## Storage tiers and per-shard zone maps
+
+`ORDER BY` + `LIMIT` reads are planned by `RltePlanner` (`plan_with_rlte`): from the RLTE
+ladders of the **flushed** segments it picks zones per shard, `PlanOutcome.picked_zones =
+Some(map)`. `StreamingShardDispatcher::dispatch` still sends the query to every shard;
+`ShardCommandBuilder::build_for_shard` gives a shard that is in the map its picked zones and a
+shard that is absent from the map an *empty* zone list. Picked zones restrict the segment zones
+a shard scans; its memtable and passive buffers are scanned regardless. -/
+
+/-- A system together with a split of every shard's events into a flushed prefix (in segments)
+and an in-memory suffix: `nflushed[i]` events of shard `i` are flushed. -/
+structure Tiered where
+  sys : System
+  nflushed : List Nat
+
+def Tiered.flushedOf (t : Tiered) (i : Nat) : Nat := t.nflushed.getD i 0
+
+def Shard.segRows (sh : Shard) (f : Nat) : List Ev := sh.events.take f
+def Shard.memRows (sh : Shard) (f : Nat) : List Ev := sh.events.drop f
+
+/-- `PlanOutcome.picked_zones`: `none` = no zone map (every shard gets the base command);
+`some m` = per-shard map, an entry says which flushed rows lie in the shard's picked zones. -/
+abbrev ZoneMap := Option (List (Nat × (Ev → Bool)))
+
+def qmatches (q : Option Ctx) (e : Ev) : Bool :=
+  match q with
+  | none => true
+  | some c => e.ctx == c
+
+/-- What shard `i` (with `f` flushed events) answers under the zone map. -/
+def Shard.answerPlan (q : Option Ctx) (zm : ZoneMap) (i f : Nat) (sh : Shard) : List Ev :=
+  match zm with
+  | none => sh.events.filter (qmatches q)
+  | some m =>
+    match m.lookup i with
+    | some allowed => ((sh.segRows f).filter allowed ++ sh.memRows f).filter (qmatches q)
+    | none => (sh.memRows f).filter (qmatches q)
+
+/-- The shards a planned query is sent to: all of them, whatever the zone map contains. -/
+def Tiered.askedPlan (t : Tiered) (_q : Option Ctx) (_zm : ZoneMap) : List Nat :=
+  List.range t.sys.shards.length
+
+def Tiered.arrivalsPlan (t : Tiered) (q : Option Ctx) (zm : ZoneMap) : List Ev :=
+  (t.askedPlan q zm).flatMap fun i =>
+    match t.sys.shards[i]? with
+    | some sh => sh.answerPlan q zm i (t.flushedOf i)
+    | none => []
+
 end Snel.Route
